@@ -6,6 +6,7 @@ import (
 	"net"
 	"os"
 	"path/filepath"
+	"strings"
 	"sync"
 	"sync/atomic"
 	"syscall"
@@ -295,6 +296,84 @@ func queues(h *vhandler, sp *peerSpec, c net.Conn) (outq, inq int) {
 	return
 }
 
+// canary keeps opening descriptors so that numbers the framework has just closed are reused at once;
+// it checks that nobody closes or replaces its descriptors behind its back.
+func canary(rec *recorder, stop <-chan struct{}, wg *sync.WaitGroup, seed uint64) {
+	defer wg.Done()
+	rng := vsup.NewRng(seed)
+	type held struct {
+		f   *os.File
+		ino uint64
+	}
+	var mine []held
+	closeOne := func(i int) {
+		hd := mine[i]
+		mine = append(mine[:i], mine[i+1:]...)
+		var st unix.Stat_t
+		if err := unix.Fstat(int(hd.f.Fd()), &st); err != nil || st.Ino != hd.ino {
+			rec.emit("ForeignBroken", "fd", int(hd.f.Fd()))
+		}
+		rec.emit("ForeignClose", "fd", int(hd.f.Fd()))
+		_ = hd.f.Close()
+	}
+	for {
+		select {
+		case <-stop:
+			for len(mine) > 0 {
+				closeOne(0)
+			}
+			return
+		default:
+		}
+		if len(mine) < 3 {
+			f, err := os.Open("/dev/null")
+			if err == nil {
+				var st unix.Stat_t
+				_ = unix.Fstat(int(f.Fd()), &st)
+				rec.emit("ForeignOpen", "fd", int(f.Fd()))
+				mine = append(mine, held{f, st.Ino})
+			}
+		}
+		if len(mine) > 0 && rng.Intn(2) == 0 {
+			closeOne(rng.Intn(len(mine)))
+		}
+		time.Sleep(time.Duration(300+rng.Intn(1500)) * time.Microsecond)
+	}
+}
+
+// fdSnapshot lists the open descriptors of the process with what they refer to.
+func fdSnapshot() map[int]string {
+	out := map[int]string{}
+	ents, err := os.ReadDir("/proc/self/fd")
+	if err != nil {
+		return out
+	}
+	for _, e := range ents {
+		var n int
+		if _, err := fmt.Sscan(e.Name(), &n); err != nil {
+			continue
+		}
+		if t, err := os.Readlink("/proc/self/fd/" + e.Name()); err == nil {
+			out[n] = t
+		}
+	}
+	return out
+}
+
+// leakedSince counts descriptors of the kinds the framework creates that exist now but not in base.
+func leakedSince(base map[int]string) (n int, what []string) {
+	for fd, t := range fdSnapshot() {
+		if base[fd] == t {
+			continue
+		}
+		if strings.HasPrefix(t, "socket:") || strings.Contains(t, "eventpoll") || strings.Contains(t, "eventfd") {
+			n++
+			what = append(what, fmt.Sprintf("%d->%s", fd, t))
+		}
+	}
+	return
+}
+
 // runServerScenario: one engine life with cfg.conns scripted connections.
 func runServerScenario(t *testing.T, rec *recorder, cfg *sysCfg, seed uint64, scratch string, rep *vsup.Report) {
 	rng := vsup.NewRng(seed)
@@ -318,6 +397,13 @@ func runServerScenario(t *testing.T, rec *recorder, cfg *sysCfg, seed uint64, sc
 	}
 	if cfg.sndbuf > 0 {
 		opts = append(opts, WithSocketSendBuffer(cfg.sndbuf))
+	}
+	baseFds := fdSnapshot()
+	stopCanary := make(chan struct{})
+	var cwg sync.WaitGroup
+	for i := 0; i < 2; i++ {
+		cwg.Add(1)
+		go canary(rec, stopCanary, &cwg, seed+uint64(i))
 	}
 	runErr := make(chan error, 1)
 	go func() {
@@ -387,6 +473,21 @@ func runServerScenario(t *testing.T, rec *recorder, cfg *sysCfg, seed uint64, sc
 		rep.Violation("sys/run-stuck", "Run did not return within 20 s after the shutdown request: "+cfg.String(), nil)
 	}
 	time.Sleep(30 * time.Millisecond)
+	close(stopCanary)
+	cwg.Wait()
+	h.closeUserDups()
+	leaked, what := leakedSince(baseFds)
+	if leaked > 0 { // sockets of peers that are still being torn down by the Go runtime: look again
+		time.Sleep(100 * time.Millisecond)
+		leaked, what = leakedSince(baseFds)
+	}
+	sockfiles := 0
+	if cfg.network == "unix" {
+		if _, err := os.Stat(dial); err == nil {
+			sockfiles = 1
+		}
+	}
+	rec.emit("ProcFd", "leaked", leaked, "what", fmt.Sprint(what), "sockfiles", sockfiles)
 	rec.emit("Grace")
 	rep.Eval(cfg.name + fmt.Sprint(seed%64))
 }
